@@ -19,6 +19,10 @@ namespace rkcommon {
 
       void initTaskSystemInternal(int nThreads)
       {
+        // drain the previous scheduler while g_ts still refers to it: its
+        // running tasks may schedule follow-up tasks through g_ts
+        if (g_ts.get() != nullptr)
+          g_ts->WaitforAll();
         g_ts = std::unique_ptr<enki::TaskScheduler>(new enki::TaskScheduler());
         if (nThreads < 1)
           nThreads = enki::GetNumHardwareThreads();
